@@ -266,4 +266,116 @@ def formatRender (hAlign : Option String) (width : Nat) (vAlign : Option String)
 def hAlignOf (s : Option String) : HAlign := if s = some "<" then .left else if s = some ">" then .right else .center
 def vAlignOf (s : Option String) : VAlign := if s = some "^" then .top else if s = some "_" then .bottom else .middle
 
+/-! ## the other entry points of the old API that pad an image render -/
+
+/-- `BaseImage.draw(h_align, pad_width, v_align, pad_height, …, animate=False, check_size=False)` as
+    written to the output: `_check_formatting`; `if pad_width > terminal_width: raise ValueError`
+    (the argument as given); `print(_format_render(render, *fmt), end="")`; finally
+    `print(SGR_DEFAULT, SHOW_CURSOR * isatty, sep="")` (not a tty: `CSI m` and a newline) -/
+def drawOutput (hAlign : PyArg) (width : Option Int) (vAlign : PyArg) (height : Option Int) (tw th : Nat)
+    (cols lines : Nat) (render : List Tok) : Except Err (List Tok) := do
+  let (h, wd, v, hg) ← checkFormatting hAlign width vAlign height tw th
+  match width with
+  | none => .error .TypeError
+  | some w =>
+    if w > (tw : Int) then .error .ValueError
+    else pure (formatRender h wd v hg cols lines render ++ [Tok.sgr0, Tok.lf])
+
+/-- what one `next()` of an `ImageIterator` finds: `image.rendered_size` at that moment and what
+    `image._render_image(img, alpha, frame=True, **style_args)` returns then -/
+structure IterStep where
+  cols : Nat
+  lines : Nat
+  render : List Tok
+
+/-- `*fmt` = the first four items of `image._check_format_spec(format_spec)` -/
+structure Fmt where
+  hAlign : Option String
+  width : Nat
+  vAlign : Option String
+  height : Nat
+
+/-- `image._format_render(image._render_image(img, alpha, frame=True, **style_args), *fmt)`:
+    `_format_render` reads `self.rendered_size` when it is called, i.e. per frame -/
+def Fmt.frame (f : Fmt) (s : IterStep) : List Tok :=
+  formatRender f.hAlign f.width f.vAlign f.height s.cols s.lines s.render
+
+/-- the *cached* argument: a `bool` or a positive `int` -/
+inductive CachedArg
+  | bool (b : Bool)
+  | count (n : Nat)
+
+/-- `self._cached = repeat != 1 and (cached if isinstance(cached, bool) else image.n_frames <= cached)` -/
+def cachedEff (rep : Int) (c : CachedArg) (nFrames : Nat) : Bool :=
+  rep != 1 && (match c with
+    | .bool b => b
+    | .count n => decide (nFrames ≤ n))
+
+/-- `cache[n] = (frame, hash(image.rendered_size))`; `(None, None)` = `none`. The hash of the size
+    tuple is modelled by the size itself. -/
+abbrev Cache := List (Option (List Tok × (Nat × Nat)))
+
+/-- one `next()` of `ImageIterator._animate` for a consumer that never seeks, `k` frames having
+    been yielded before: frame number `n = k mod n_frames`; the first pass (and every pass when not
+    cached) renders and formats with the size read now and stores `(frame, size)` when cached; the
+    later passes of a cached iteration take `cache[n]` and re-render when the size differs -/
+def iterNext (f : Fmt) (cached : Bool) (nFrames k : Nat) (cache : Cache) (s : IterStep) : Cache × List Tok :=
+  let n := k % nFrames
+  if cached ∧ k ≥ nFrames then
+    match cache[n]? with
+    | some (some (frame, size)) =>
+      if (s.cols, s.lines) ≠ size then
+        let fr := f.frame s
+        (cache.set n (some (fr, (s.cols, s.lines))), fr)
+      else (cache, frame)
+    | _ =>
+      let fr := f.frame s
+      (cache.set n (some (fr, (s.cols, s.lines))), fr)
+  else
+    let fr := f.frame s
+    (if cached then cache.set n (some (fr, (s.cols, s.lines))) else cache, fr)
+
+/-- the frames of successive `next()` calls; `none` = `StopIteration` (after `repeat × n_frames`
+    frames for a positive repeat count) -/
+def iterGo (f : Fmt) (rep : Int) (cached : Bool) (nFrames : Nat) :
+    Nat → Cache → List IterStep → List (Option (List Tok))
+  | _, _, [] => []
+  | k, cache, s :: rest =>
+    if rep ≥ 0 ∧ (k : Int) ≥ rep * nFrames then none :: iterGo f rep cached nFrames (k + 1) cache rest
+    else
+      let (cache', fr) := iterNext f cached nFrames k cache s
+      some fr :: iterGo f rep cached nFrames (k + 1) cache' rest
+
+/-- `ImageIterator(image, repeat, format_spec, cached)` consumed with `next()` -/
+def iterFrames (f : Fmt) (rep : Int) (c : CachedArg) (nFrames : Nat) (steps : List IterStep) :
+    List (Option (List Tok)) :=
+  iterGo f rep (cachedEff rep c nFrames) nFrames 0 (List.replicate nFrames none) steps
+
+/-- `BaseImage._display_animated` up to the end of the last frame: `print(next(animator))`, then
+    per further frame `print("\r", cursor_up(lines - 1), frame)` with
+    `lines = max(fmt[-1], self.rendered_height)` (text styles: `_clear_frame()` does nothing) -/
+def animBody (padHeight lines : Nat) (frames : List (List Tok)) : List Tok :=
+  match frames with
+  | [] => []
+  | first :: rest =>
+    first ++ (rest.map fun fr => [Tok.cr] ++ cursorUp (((max padHeight lines : Nat) : Int) - 1) ++ fr).flatten
+
+/-- `draw(…, animate=True, repeat, cached)` of an animated image as written to a non-tty output:
+    `_check_formatting`, `pad_width > terminal_width` / `pad_height > terminal_height` → `ValueError`,
+    the frames of `ImageIterator._animate` (the size is pinned while `draw()` runs), `CSI m`, newline -/
+def drawAnimatedOutput (hAlign : PyArg) (width : Option Int) (vAlign : PyArg) (height : Option Int) (tw th : Nat)
+    (rep : Int) (c : CachedArg) (nFrames : Nat) (steps : List IterStep) : Except Err (List Tok) := do
+  let (h, wd, v, hg) ← checkFormatting hAlign width vAlign height tw th
+  match width, height with
+  | some w, some ht =>
+    if w > (tw : Int) then .error .ValueError
+    else if ht > (th : Int) then .error .ValueError
+    else
+      let frames := (iterFrames ⟨h, wd, v, hg⟩ rep c nFrames steps).filterMap id
+      let lines := match steps with
+        | [] => 0
+        | s :: _ => s.lines
+      pure (animBody hg lines frames ++ [Tok.sgr0, Tok.lf])
+  | _, _ => .error .TypeError
+
 end TIV.C05
